@@ -71,6 +71,10 @@ type c11Env struct {
 // call runs one request under a watchdog.  returned=false means it is provably blocked.
 func (e *c11Env) call(name string, f func() error) (err error, verdict *vVerdict) {
 	done := make(chan error, 1)
+	var p0 int64
+	if e.mon != nil {
+		p0 = atomic.LoadInt64(&e.mon.processed)
+	}
 	go func() { done <- f() }()
 	select {
 	case err = <-done:
@@ -91,6 +95,13 @@ func (e *c11Env) call(name string, f func() error) (err error, verdict *vVerdict
 			}
 		}
 		return false
+	}
+	if e.mon != nil && e.running {
+		if n := atomic.LoadInt64(&e.mon.processed) - p0; n >= 50 && strings.Contains(d2, "runLaterIfActive") {
+			v := vFailf("request-starved|"+name, "%s was not served for 11.5 s although %d data blocks were processed meanwhile (requests must be taken between blocks)\n%s",
+				name, n, vTrim(c11Relevant(d2), 2000))
+			return nil, &v
+		}
 	}
 	if blocked(d1) && blocked(d2) {
 		v := vFailf("request-blocked|"+name, "%s did not return: after 10 s and again 1.5 s later its goroutine sits in the same channel operation of runLaterIfActive (source running per harness: %v)\n%s",
@@ -666,7 +677,7 @@ func c11GenStep(t *rapid.T, c *c11Case) c11Step {
 
 func c11Gen(t *rapid.T) c11Case {
 	c := c11Case{Source: rapid.SampledFrom([]string{"scripted", "scripted", "scripted", "triangle", "simpulse", "erroring"}).Draw(t, "source"),
-		Nchan: rapid.IntRange(1, 4).Draw(t, "nchan"), SlowUs: rapid.SampledFrom([]int{0, 200, 1500}).Draw(t, "slow")}
+		Nchan: rapid.IntRange(1, 4).Draw(t, "nchan"), SlowUs: rapid.SampledFrom([]int{0, 200, 1500, 6000}).Draw(t, "slow")}
 	c.Nsamp = rapid.SampledFrom([]int{20, 32, 50}).Draw(t, "nsamp")
 	c.Npre = rapid.IntRange(4, c.Nsamp-4).Draw(t, "npre")
 	c.RealRPC = c.Source != "scripted" && rapid.Bool().Draw(t, "realstart")
